@@ -403,7 +403,7 @@ impl M17 {
             return vec![];
         };
         let mut a = vec![];
-        let containers = matches!(codec, Codec::VecOwned | Codec::VecRef | Codec::BoxSlice);
+        let containers = matches!(codec, Codec::VecOwned | Codec::VecRef | Codec::BoxSlice | Codec::JsonReader | Codec::JsonValue);
         for l in 0..enc.len() {
             if containers && !(l == 0 || l + 1 == enc.len() || l == enc.len() / 2) {
                 continue;
